@@ -21,7 +21,7 @@ that, for a single-sector spectrum, ``tol=x`` and ``tol_block=x`` take the same 
 Decompositions: ||a - U S V||_F (dense truth) equals the norm of the discarded values of the full spectrum.
 
 Domain (what is *not* judged, only exercised and counted): per-sector dictionaries that do not cover every sector
-(undocumented default); relative tolerances other than 0 / -inf when the values they are relative to are not all >= 0 with
+(undocumented default; eigh_with_truncation documents plain numbers only, so it gets no dictionaries at all); relative tolerances other than 0 / -inf when the values they are relative to are not all >= 0 with
 the maximum attained by a positive value; eigh_with_truncation is judged on the transformed spectrum the function builds
 (|S| for LM/SM, S for LR, negated for SM/SR).  tol = tol_block = -inf ("tolerance switched off") on negative transformed
 spectra (which='SR'/'SM', the calling pattern of the repository's own tests) IS judged: the docstring promises that the
@@ -56,19 +56,19 @@ EPS8 = 8 * 2.3e-16
 
 def plan(tier):
     if tier == "thorough":
-        return {"cases": 96000, "shards": 16, "budget_s": 800}
+        return {"cases": 84000, "shards": 16, "budget_s": 800}
     return {"cases": 4800, "shards": 8, "budget_s": 100}
 
 
 def floors(tier):
-    k = 20 if tier == "thorough" else 1
+    k = 15 if tier == "thorough" else 1
     return {"evaluations": 3000 * k, "masks_judged": 12000 * k, "multiplet_masks_judged": 1500 * k,
             "decompositions_judged": 400 * k, "svd_with_truncation": 200 * k, "eigh_with_truncation": 150 * k,
             "error_identity_checked": 400 * k, "threshold_exactly_hit": 300 * k, "ties_at_cut": 300 * k,
             "param:D_block-dict": 500 * k, "param:tol_block-dict": 300 * k, "param:D_total-binds": 1000 * k,
             "param:D_block-binds": 1000 * k, "param:tol-binds": 1000 * k, "param:tol_block-binds": 1000 * k,
             "nothing_binds": 300 * k, "spectra_with_zeros": 300 * k, "spectra_all_equal": 50 * k, "single_element_sectors": 500 * k,
-            "stage_consistency_checked": 100 * k, "decomp_fused": 80 * k, "decomp_lazy": 150 * k, "decomp_dict_by_charge": 40 * k,
+            "stage_consistency_checked": 100 * k, "multiplets_hermitian_judged": 40 * k, "decomp_fused": 80 * k, "decomp_lazy": 150 * k, "decomp_dict_by_charge": 40 * k,
             "decomp_designed_spectrum": 100 * k, "mask_f_used": 10 * k}
 
 
@@ -563,9 +563,102 @@ def judge_mask_multiplets(ctx, blocks, kept, kw, w):
     return False
 
 
+def multiplet_cuts(s, kw):
+    """Accepted cut positions p of truncation_mask_multiplets on the descending values s (None: documentation silent)."""
+    n = len(s)
+    eps = kw.get("eps_multiplet", 1e-13)
+    ns, ne, same = classify(s, _thr(kw.get("tol", 0), float(s[0]) if n else 0.0))
+    out = []
+    for N in options(ns, ne, same):
+        K0 = capped(kw.get("D_total", INF), N)
+        if K0 >= n:
+            out.append(n)
+            continue
+        for i in range(K0, 0, -1):
+            r = rel_gap(s[i - 1], s[i])
+            if max(abs(s[i - 1]), abs(s[i])) < 1e-9 or abs(r - eps) <= 1e-6 * eps:
+                return None
+            if r > eps:
+                out.append(i)
+                break
+        else:
+            if K0 > 0:
+                return None
+            out.append(0)
+    return out
+
+
+def hermitian_multiplet_case(ctx, idx, sym, rng):
+    """truncation_mask_multiplets(hermitian=True): sectors t and -t are 'truncated equally' = position i is kept in both or in none."""
+    import yastn
+    box = [t for t in D.charge_box(sym) if G.neg(sym, t) != t and G.neg(sym, t) in D.charge_box(sym)]
+    if not box:
+        return False
+    t = rng.choice(box)
+    tn = G.neg(sym, t)
+    Dt = rng.randint(1, 5)
+    levels = [1.0, 0.7, 0.5, 0.3, 0.1, 0.01]
+    base = sorted((rng.choice(levels) for _ in range(Dt)), reverse=True)
+    other = list(base)
+    how = rng.choice(("equal", "perturbed", "shorter"))
+    if how == "perturbed":
+        other = sorted((v * rng.choice((1.0, 1.0, 0.9, 1.1)) for v in base), reverse=True)
+    elif how == "shorter" and Dt > 1:
+        other = other[:rng.randint(1, Dt - 1)]
+    blocks = {t: np.array(base), tn: np.array(other)}
+    if rng.random() < 0.5 and G.zero(sym) not in blocks:
+        blocks[G.zero(sym)] = np.array(sorted((rng.choice(levels) for _ in range(rng.randint(1, 3))), reverse=True))
+    leg = D.HLeg(sym, rng.choice((1, -1)), [(c, len(v)) for c, v in blocks.items()])
+    S = build_S(sym, leg, blocks, D.make_cfg(sym))
+    ntot = sum(len(v) for v in blocks.values())
+    kw = {"D_total": rng.randint(0, ntot + 1), "eps_multiplet": rng.choice((1e-13, 1e-3))}
+    w = {"sym": sym, "spectrum": {str(c): v.tolist() for c, v in blocks.items()}, "kwargs": kw_desc(kw), "hermitian": True}
+    try:
+        m = yastn.truncation_mask_multiplets(S, hermitian=True, **kw)
+    except Exception as e:
+        if type(e).__name__ != "YastnError" or "does not have the block" not in str(e):
+            raise
+        # both sectors t and -t are present, so no block lookup may fail: the library negates the 2*NSYM-long block key (t, t) as if it
+        # were one charge, which mis-reduces cyclic components of product symmetries (Z2xU1, U1xU1xZ2)
+        ctx.count("multiplets_hermitian_rejected")
+        ctx.violation("truncation_mask_multiplets:hermitian:conjugate-sector-key",
+                      f"truncation_mask_multiplets(hermitian=True) raised YastnError({e}) although the sectors {t} and {tn} = -{t} are both "
+                      f"present in S (symmetry {sym})", w)
+        ctx.case(("multiplets-hermitian-rejected", sym), False)
+        return True
+    mb = read_mask(ctx, "truncation_mask_multiplets", m, S, blocks, w)
+    if mb is None:
+        return True
+    s = np.sort(cat(blocks.values()))[::-1]
+    ps = multiplet_cuts(s, kw)
+    if ps is None:
+        ctx.count("unjudged:leading-multiplet-exceeds-limit")
+        return True
+    ok = False
+    for p in ps:
+        cut = s[p - 1] if p > 0 else INF
+        top = {c: v >= cut for c, v in blocks.items()}           # the cut is at a gap: membership in the top-p set is by value
+        exp = {c: x.copy() for c, x in top.items()}
+        cs = min(len(blocks[t]), len(blocks[tn]))
+        both = top[t][:cs] & top[tn][:cs]
+        exp[t][:cs], exp[tn][:cs] = both, both
+        if all(np.array_equal(exp[c], mb[c]) for c in blocks):
+            ok = True
+    ctx.count("multiplet_masks_judged")
+    ctx.count("multiplets_hermitian_judged")
+    if not ok:
+        ctx.violation("truncation_mask_multiplets:hermitian", f"truncation_mask_multiplets(hermitian=True, {kw_desc(kw)}) on {w['spectrum']}: mask "
+                      f"{ {str(c): x.tolist() for c, x in mb.items()} }; expected sectors {t} and {tn} to keep position i only if both are inside "
+                      f"the cut (accepted cuts {ps})", w)
+    ctx.case(("multiplets-hermitian", sym, how, tuple(len(v) for v in blocks.values())), True)
+    return True
+
+
 def multiplet_case(ctx, idx, sym):
     import yastn
     rng, nprng = ctx.rng(idx), ctx.nprng(idx)
+    if rng.random() < 0.2 and hermitian_multiplet_case(ctx, idx, sym, rng):
+        return
     cfg = D.make_cfg(sym)
     leg, blocks, pat, shuffled = gen_spectrum(rng, nprng, sym, False)
     # multiplets: replace values by a few levels with small (or no) splitting
@@ -841,19 +934,19 @@ def eigh_trunc_case(ctx, idx, sym):
     allv = cat(full.values())
     nonneg = bool(np.all(allv >= 0))
     # parameter domain per transformed spectrum (see module docstring)
+    # eigh_with_truncation documents D_block / tol_block as plain numbers (no per-sector dictionaries): scalars only
     if nonneg:
-        kw = limits_for_decomp(rng, full)
+        kw = limits_for_decomp(rng, full, allow_dict=False)
         dom = "nonneg"
     else:
         kw, _ = gen_limits(rng, full, True, True)
+        kw = {k_: v for k_, v in kw.items() if not isinstance(v, dict)}
         if which in ("LR", "SR") and rng.random() < 0.6:
             kw["tol"], kw["tol_block"] = 0, 0                # documented: "all negative ones are discarded"
             if rng.random() < 0.5:
                 kw["tol"] = rng.choice((0.5, 0.25, 1e-3))    # relative to the largest survivor, which is positive
         dom = "signed"
     ctx.count("eigh_trunc:" + which + ":" + dom)
-    if isinstance(kw.get("D_block"), dict) or isinstance(kw.get("tol_block"), dict):
-        ctx.count("decomp_dict_by_charge")
     w["kwargs"] = kw_desc(kw)
     args = dict(axes=axes, sU=sU, Uaxis=Uaxis, which=which, **kw)
     S, U = yastn.eigh_with_truncation(operand.y, **args) if rng.random() < 0.7 else operand.y.eigh_with_truncation(**args)
